@@ -59,7 +59,7 @@ class Env:
 
     def bounds(self, tier, tbl):
         return {"header/TLAB/alignment/Region/array size": "all inputs fully symbolic 64-bit (align_i32: 32-bit) under the stated preconditions; loop-free except try_mark's CAS loop (<= 2 iterations sequentially)",
-                "align_usize_up": "alignment 2^sh for every sh in 0..63 (forked), alignment 0, and every alignment 1..%d (forked); value symbolic 64-bit" % (24 if tier == "quick" else 64),
+                "align_usize_up": "alignment 2^sh for every sh in 0..63 (forked), and alignment 0; value symbolic 64-bit (alignments that are not powers of two are outside: no caller uses one, and the division makes the queries intractable)",
                 "os page helpers": "page_size_bits in {12,14,16}",
                 "determine_array_size": "element size symbolic <= 4096 (quick: element sizes {0,1,2,4,8,12,16,24,32,64,4096})" if tier == "thorough" else "element size in {0,1,2,4,8,12,16,24,32,64,4096}, length symbolic 64-bit",
                 "table": tbl.bounds_text(tier)}
@@ -556,11 +556,6 @@ def align_harnesses(E, tier):
                 lambda rng: [{"v": v, "sh": a} for v, a in ((13, 3), (16, 3), (0, 3), (M64 - 8, 3), (M64 - 7, 3), (M64 - 3, 3), (M64, 0), (M64 - 1, 0), (5, 0), (1 << 63, 63),
                                                           ((1 << 63) - 1, 63), (rng.getrandbits(60), 12), (rng.getrandbits(62), 16))],
                 need=["align_usize_up panics (debug) beyond the precondition: value + align > usize::MAX", "value already aligned", "value rounded up"]))
-    hs.append(H("align/align_usize_up-any", "mem::align_usize_up", [("v", "usize"), ("a", "usize")], lambda I: z3.And(ule(1, I["a"]), ule(I["a"], ANY_MAX)),
-                sym_up(None, 1, ANY_MAX + 1, "a"), nat_up(lambda v: v["a"]),
-                up_spec("align_usize_up (any alignment 1..%d)" % ANY_MAX, lambda I: I["v"], lambda I: I["a"], lambda I: ule(I["v"], bv(M64) - I["a"])),
-                lambda I, O: [] if O["panic"] else [("non power of two alignment", I["a"] == 24)],
-                lambda rng: [{"v": v, "a": a} for v, a in ((13, 24), (48, 24), (100, 7), (M64 - 3, 3), (M64 - 2, 3))], need=["non power of two alignment"]))
 
     def spec_zero(I, O):
         if O["panic"]:
@@ -571,19 +566,29 @@ def align_harnesses(E, tier):
         lambda rng: [{"v": 0}, {"v": 13}, {"v": M64}], ["alignment 0 returns"])
     hs[-1].name = "align/align_usize_up-zero"
 
-    # align_i32 (values and alignments as used for sizes/offsets: non-negative value, positive alignment)
+    # align_i32 (as used for sizes/offsets: non-negative value, alignment 2^sh forked over sh in 0..16)
     def spec_i32(I, O):
-        v, a = I["v"], I["a"]
+        v, a = I["v"], z3.BitVecVal(1, 32) << I["sh"]
         nowrap = v + a >= v          # signed, 32 bit; `value + align` is evaluated first
         if O["panic"]:
-            return [("align_i32 panics although value + align - 1 does not overflow", z3.Not(nowrap))]
+            return [("align_i32 panics although value + align does not overflow", z3.Not(nowrap))]
         r = z3.Extract(31, 0, O["ret"])
-        return [("align_i32 accepts an overflowing sum", nowrap), ("align_i32: result < argument", r >= v), ("align_i32: result not aligned", z3.SRem(r, a) == 0),
+        return [("align_i32 accepts an overflowing sum", nowrap), ("align_i32: result < argument", r >= v), ("align_i32: result not aligned", r & (a - 1) == 0),
                 ("align_i32: result >= argument + alignment", r - v < a)]
-    fn1("align_i32", "mem::align_i32", lambda I: [Int(I["v"], "i32"), Int(I["a"], "i32")], lambda v: [v["v"], v["a"]],
-        [("v", "i32"), ("a", "i32")], lambda I: z3.And(I["v"] >= 0, I["a"] > 0, I["a"] <= 65536), spec_i32,
-        lambda I, O: [("align_i32 overflow panic reachable", True)] if O["panic"] else [("rounded up", z3.Extract(31, 0, O["ret"]) != I["v"])],
-        lambda rng: [{"v": v, "a": a} for v, a in ((13, 8), (16, 8), (0, 16), (2147483647, 8), (2147483640, 8), (77, 12))], ["align_i32 overflow panic reachable", "rounded up"])
+
+    def sym_i32(ctx, it, I):
+        k = ctx.concretize(Int(I["sh"], "i32"), 0, 17)
+        return {"ret": z3.ZeroExt(32, it.call(ctx, "mem::align_i32", [Int(I["v"], "i32"), Int(1 << k, "i32")]).t)}
+
+    def nat_i32(nat_, v):
+        o, r = nat_ret(nat_, "align", "align_i32", v["v"], 1 << v["sh"])
+        if not o["panic"]:
+            o["ret"] = num(r["ret"])
+        return o
+    hs.append(H("align/align_i32", "mem::align_i32", [("v", "i32"), ("sh", "i32")], lambda I: z3.And(I["v"] >= 0, I["sh"] >= 0, I["sh"] <= 16), sym_i32, nat_i32, spec_i32,
+                lambda I, O: [("align_i32 overflow panic reachable", True)] if O["panic"] else [("rounded up", z3.Extract(31, 0, O["ret"]) != I["v"])],
+                lambda rng: [{"v": v, "sh": a} for v, a in ((13, 3), (16, 3), (0, 4), (2147483647, 3), (2147483640, 3), (2147483639, 3), (77, 2), (5, 0))],
+                need=["align_i32 overflow panic reachable", "rounded up"]))
 
     def bool_fn(name, mirname, args_of, natargs_of, ins, pre, want, samples, hooks=None, panic_ok=None):
         def spec(I, O):
